@@ -339,8 +339,9 @@ type world struct {
 	log        []string
 	tkr        string // the tracker of this scenario's client (hook lines of other trackers are not ours)
 	streams    []*relayStream
-	inj        map[uint64]*injected // by outer message seqno (unique per scenario)
-	auto       string               // relay behaviour on a SendMsg request: "", "ack" (honest: drop stale epochs, acknowledge the rest), "skip-one", "reopen-then-ack"
+	inj        map[uint64]*injected   // by outer message seqno (unique per scenario, except scenario seqno-reuse: the LATEST injection)
+	injAll     map[uint64][]*injected // every injection of an outer seqno, in order (scenario seqno-reuse presents a seqno again)
+	auto       string                 // relay behaviour on a SendMsg request: "", "ack" (honest: drop stale epochs, acknowledge the rest), "skip-one", "reopen-then-ack"
 	epoch      uint64
 	acksIssued map[uint64]bool
 	sent       map[uint64]bool // seqnos the client transmitted
@@ -560,6 +561,7 @@ func b01(s string) string {
 func (w *world) canonical() string {
 	lines := w.lines()
 	var toks []string
+	seenQ := map[uint64]int{} // how many recvmsg / recvrej events named this outer seqno so far
 	for _, line := range lines {
 		ev := strings.TrimPrefix(strings.SplitN(line, " ", 2)[0], "ev=")
 		switch ev { // the engine's own observations of the Recv calls
@@ -584,8 +586,13 @@ func (w *world) canonical() string {
 			mid, v, g := 0, 0, 0
 			w.mtx.Lock()
 			if in := w.inj[q]; in != nil {
+				// a seqno presented again (scenario seqno-reuse): the i-th event is the i-th injection
+				if all := w.injAll[q]; len(all) > 1 && seenQ[q] < len(all) {
+					in = all[seenQ[q]]
+				}
 				mid, v, g = in.mid, in.v, in.g
 			}
+			seenQ[q]++
 			w.mtx.Unlock()
 			if ev == "recvmsg" {
 				toks = append(toks, fmt.Sprintf("recvmsg,q=%d,m=%d,v=%d,g=%d,snap=%s", q, mid, v, g, snap))
@@ -649,7 +656,7 @@ var forgeries = []string{"altered-copy", "tampered", "claimed-sender", "third-pa
 	"other-context", "other-context-keyed", "empty-signature", "unsigned", "nil-body", "empty-data", "no-sender"}
 
 func (e *engine) scenario(kind string, n int) {
-	w := &world{e: e, inj: map[uint64]*injected{}, acksIssued: map[uint64]bool{}, sent: map[uint64]bool{}, epoch: 1, peerB: e.kB.IDStr, fails: map[string]int{}, failed: map[string]int{}}
+	w := &world{e: e, inj: map[uint64]*injected{}, injAll: map[uint64][]*injected{}, acksIssued: map[uint64]bool{}, sent: map[uint64]bool{}, epoch: 1, peerB: e.kB.IDStr, fails: map[string]int{}, failed: map[string]int{}}
 	if kind == "open-failure" {
 		// the relay cannot be reached at first, then the Init write fails once
 		w.fails["session"] = 1 + e.rng.Intn(3)
@@ -891,6 +898,7 @@ func (e *engine) scenario(kind string, n int) {
 	}
 	var lastAuthentic *signaling.SessionMsg
 	var lastAuthenticMid int
+	var forceSeq uint64 // non-zero: the next injection carries this outer sequence number
 	inject := func(how string) {
 		if (how == "altered-copy" || how == "seqno-rewritten") && lastAuthentic == nil {
 			how = "tampered"
@@ -901,8 +909,18 @@ func (e *engine) scenario(kind string, n int) {
 		}
 		nextInj++
 		q := nextInj
-		payload := append(e.rng.Bytes(6), byte(q), byte(q>>8))
-		in := &injected{class: how, seqno: q, mid: int(q)}
+		mid := int(q)
+		if forceSeq != 0 {
+			// scenario seqno-reuse: the outer sequence number is presented AGAIN (the sender's counter
+			// restarted); the message itself is new (own payload, own message id)
+			nextInj--
+			q, forceSeq = forceSeq, 0
+			w.mtx.Lock()
+			mid = int(q) + 1000*len(w.injAll[q])
+			w.mtx.Unlock()
+		}
+		payload := append(e.rng.Bytes(6), byte(q), byte(q>>8), byte(mid>>8), byte(mid>>16))
+		in := &injected{class: how, seqno: q, mid: mid}
 		var m *signaling.SessionMsg
 		switch how {
 		case "authentic":
@@ -950,6 +968,7 @@ func (e *engine) scenario(kind string, n int) {
 		in.wire, _ = m.MarshalVT()
 		w.mtx.Lock()
 		w.inj[q] = in
+		w.injAll[q] = append(w.injAll[q], in)
 		w.mtx.Unlock()
 		w.respond(w.cur(), &signaling.SessionResponse{Body: &signaling.SessionResponse_RecvMsg{RecvMsg: m}})
 	}
@@ -1118,6 +1137,69 @@ func (e *engine) scenario(kind string, n int) {
 			jitter()
 		}
 		act("honest relay: open, ack every send, deliver authentic messages (Recv callers of all kinds)")
+	case "seqno-reuse":
+		// C21 sentinel (wave 5): the outer sequence number of a message is NOT unique over the life
+		// of this client's tracker: the remote sender's counter restarts at 1 whenever ITS tracker is
+		// re-created (it released its reference and took a new one, or its process restarted) while
+		// this client keeps its reference. Conversation after conversation the honest relay presents
+		// NEW authentic messages under sequence numbers this client has seen, handed to the
+		// application and acknowledged before - after Closed+Opened, after a bare Opened (the
+		// partner re-attached), after a failure of this client's own stream, and (n odd) also within
+		// one epoch. Every one of them must be handed to a waiting Recv (in order), and only then
+		// acknowledged (the wire monitors below); "acknowledged" must never mean "recognised".
+		progress = true
+		forceRef = true
+		w.auto = "ack"
+		open()
+		w.quiesce(300 * time.Microsecond)
+		lens := []int{1, 1, 2, 3, 2, 1}
+		okAll := true
+		for c := 0; c < len(lens) && okAll; c++ {
+			if c > 0 {
+				switch (c + n) % 4 {
+				case 0:
+					act(disturb("closed-opened", 0))
+				case 1:
+					act(disturb("opened", 0))
+				case 2:
+					old := w.cur()
+					old.failNow()
+					freshStream(old)
+					from := w.mark()
+					ep := open()
+					expectHook(from, "opened", fmt.Sprint(ep))
+					act(fmt.Sprintf("the client's stream fails, it re-connects, relay delivers Opened(%d)", ep))
+				case 3:
+					act("same epoch")
+				}
+				w.quiesce(300 * time.Microsecond)
+			}
+			for i := 1; i <= lens[c] && okAll; i++ {
+				from := w.mark()
+				forceSeq = uint64(100 + i)
+				inject("authentic")
+				w.mtx.Lock()
+				want := w.inj[uint64(100+i)]
+				w.mtx.Unlock()
+				expectHook(from, "recvmsg", fmt.Sprint(100+i))
+				res := startRecvMode("live", 5*time.Second)
+				got := false
+				select {
+				case got = <-res:
+				case <-time.After(6 * time.Second):
+				}
+				rmtx.Lock()
+				handed := got && len(received) > 0 && string(received[len(received)-1].GetSignedMsg().GetData()) == want.payload
+				rmtx.Unlock()
+				if !handed {
+					okAll = false
+					sentinel("sigcli.progress-recv:"+kind, fmt.Sprintf("conversation %d: a NEW authentic message of the remote peer (message id %d) delivered by a working relay under sequence number %d - which an earlier, different message had carried (the sender's counter restarted) - was not handed to the application although a Recv was waiting (Recv returned a message: %v)", c+1, want.mid, 100+i, got))
+				}
+				w.quiesce(300 * time.Microsecond) // the client acknowledges it
+			}
+			act(fmt.Sprintf("relay delivers %d new authentic message(s) under sequence numbers 101.., a live Recv takes each", lens[c]))
+		}
+		startSendOpt(10*time.Second, true) // and the other direction still works
 	case "reopen-in-flight":
 		// F11 sentinel: Opened(e+1) arrives while Send's message is pending; then it is acked
 		progress = true
@@ -2078,6 +2160,11 @@ func (e *engine) scenario(kind string, n int) {
 		for _, m := range received {
 			in := w.inj[m.GetSeqno()]
 			wire, _ := m.MarshalVT()
+			for _, x := range w.injAll[m.GetSeqno()] { // a seqno presented more than once: the injection with exactly these bytes
+				if in != nil && !bytes.Equal(in.wire, wire) && bytes.Equal(x.wire, wire) {
+					in = x
+				}
+			}
 			switch {
 			case !sigoracle.AuthenticFrom(e.kB, m):
 				set(3, "sigcli.recv:forged", fmt.Sprintf("the application was handed a message (seqno %d, injection class %s) that does not verify under the key of the session's remote peer over the body it carries (stdlib)", m.GetSeqno(), classOf(in)))
@@ -2339,6 +2426,10 @@ func (e *engine) run() {
 	e.rep.Require("trace.honest", "trace.reopen-in-flight", "trace.malicious", "trace.cancel-after-ack", "trace.altered-retransmission", "trace.forgery-classes", "trace.stream-failure-in-flight", "trace.cancel-then-send",
 		"trace.recv-cancelled", "trace.reopen-during-write", "trace.gated-writes")
 	e.rep.Require("trace.clear-other", "trace.open-failure", "trace.two-sessions", "trace.listen-handler", "trace.controller-sessions")
+	e.rep.Require("trace.seqno-reuse")
+	for i := 0; i < 2; i++ {
+		e.scenario("seqno-reuse", i)
+	}
 	e.scenario("controller-sessions", 6)
 	e.scenario("clear-other", 2)
 	e.scenario("open-failure", 2)
